@@ -2,7 +2,8 @@
 //!
 //! Ops (one JSON object per line):
 //!   {"op":"parse","src":HEX}        -> {"r": RES}
-//!   {"op":"rt","src":HEX}           -> {"r": RES, "w": W, "r2": RES|null}     (read, write, read again)
+//!   {"op":"rt","src":HEX}           -> {"r": RES, "w": W, "r2": RES|null, "save": S}     (read, write, read again; S: the same library
+//!                                      through `save` over an existing longer file: {"same":true} | {"text":HEX,"r3":RES} | {"err"} | {"panic"})
 //!   {"op":"time","src":HEX,"reps":n}-> {"ns": best-of-n nanoseconds of one read, "r": "ok"|"err"}
 //!   {"op":"f64","s":HEX}            -> {"i32": bool, "f64": bool}               (lex_number's number test)
 //!   {"op":"dec","s":HEX}            -> {"ok": DEC, "disp": HEX} | {"err": str}  (LefDecimal::from_str / Display)
@@ -305,7 +306,23 @@ fn run(case: &Value) -> Value {
                 match w {
                     Ok(Ok(t)) => {
                         let r2 = read(t.as_bytes());
-                        json!({"r": rv, "w": {"text": hex(t.as_bytes())}, "r2": res(&r2)})
+                        // the same library through `save` (what the lefrw binary does), over an existing LONGER file
+                        let sp = scratch().with_extension("saved.lef");
+                        std::fs::write(&sp, format!("{}\n# older, longer content of this file\n{}", t, "# x\n".repeat(64))).expect("write scratch");
+                        let sv = catch_unwind(AssertUnwindSafe(|| l.save(&sp))).map_err(panic_msg);
+                        let save = match sv {
+                            Ok(Ok(())) => match std::fs::read(&sp) {
+                                Ok(b) if b == t.as_bytes() => json!({"same": true}),
+                                Ok(b) => {
+                                    let r3 = catch_unwind(AssertUnwindSafe(|| LefLibrary::open(&sp))).map_err(panic_msg);
+                                    json!({"text": hex(&b), "r3": res(&r3)})
+                                }
+                                Err(e) => json!({"err": format!("file not readable: {:?}", e)}),
+                            },
+                            Ok(Err(e)) => json!({"err": format!("{:?}", e)}),
+                            Err(m) => json!({"panic": m}),
+                        };
+                        json!({"r": rv, "w": {"text": hex(t.as_bytes())}, "r2": res(&r2), "save": save})
                     }
                     Ok(Err(e)) => json!({"r": rv, "w": {"werr": format!("{:?}", e)}, "r2": null}),
                     Err(m) => json!({"r": rv, "w": {"wpanic": m}, "r2": null}),
